@@ -204,7 +204,9 @@ def test_alphabet():
     quick = C.statements("quick")
     check("quick is a subset", all(s in sts for s in quick), True)
     check("quick has every kind", {s["kind"] for s in quick}, {s["kind"] for s in sts})
-    check("quick has every class of the hand-written statements", {s["cls"] for s in quick if s["kind"] != "typed"}, {s["cls"] for s in sts if s["kind"] != "typed"})
+    # (the bind product has thorough-only parameter styles: test_binds)
+    check("quick has every class of the hand-written statements", {s["cls"] for s in quick if s["kind"] not in ("typed", "bind")},
+          {s["cls"] for s in sts if s["kind"] not in ("typed", "bind")})
     check("quick has every form of the product", {s["cls"].split(":")[1] for s in quick if s["kind"] == "typed"}, {f[0] for f in C.FORMS})
     check("quick has a scale-0 integer synonym, a NUMBER(p,0), a scaled NUMBER, a float", {"INT", "NUMBER(10,0)", "NUMBER(10,2)", "FLOAT"} <= set(C.QUICK_TYPES), True)
     check("at least 250 hand-written statements", len([s for s in sts if s["kind"] != "typed"]) >= 250, True)
@@ -346,8 +348,62 @@ def test_zero_values():
     check("status counters of 0", len(zero_counters), 5)
 
 
+# ---- 9. statement kind x parameter style, and what the cursor executes next -----------------------------------------------------------
+def test_binds():
+    import checks.c06 as C
+
+    binds = [s for s in C.STATEMENTS if s["kind"] == "bind"]
+    quick = [s for s in C.statements("quick") if s["kind"] == "bind"]
+    skinds = {b[0] for b in C.BIND_STATEMENTS}
+    for k in ("select", "ctas", "create_view", "insert", "update", "delete", "merge"):
+        check(f"bind statement kind {k}", k in skinds, True)
+    styles = [b[0] for b in C.BIND_STYLES]
+    check("parameter styles", styles, ["pyformat", "pyformat_named", "format", "qmark", "qmark_list"])
+    check("complete product kind x style", len([s for s in binds if not s["many"]]), len(C.BIND_STATEMENTS) * len(C.BIND_STYLES))
+    check("quick: every statement kind under every quick style", {s["cls"] for s in quick if not s["many"]},
+          {f"bind:{st}:{k}" for st in C.QUICK_BIND_STYLES for k in skinds})
+    check("quick styles bind client-side, named and server-side", set(C.QUICK_BIND_STYLES), {"pyformat", "pyformat_named", "qmark"})
+    check("quick: executemany under both mechanisms", {s["cls"].split(":")[1] for s in quick if s["many"]}, {"pyformat", "qmark"})
+    # how a template is filled
+    check("fill qmark", C._fill("update t set b = {p} where a = {p}", lambda i: "?"), "update t set b = ? where a = ?")
+    check("fill named", C._fill("update t set b = {p} where a = {p}", lambda i: f"%(p{i})s"), "update t set b = %(p0)s where a = %(p1)s")
+    check("fill none", C._fill("truncate table t", lambda i: "?"), "truncate table t")
+    for s in binds:
+        n = len(re.findall(r"\?|%s|%\(p\d+\)s", s["sql"]))
+        sets = s["params"] if s["many"] else [s["params"]]
+        check(f"{s['sid']}: one value per placeholder", {len(p) for p in sets}, {n})
+        check(f"{s['sid']}: at least one bind", n >= 1, True)
+        check(f"{s['sid']}: shared fixture only for queries", s["pure"], s["is_query"])
+        if s["names"]:
+            check(f"{s['sid']}: ncols", s["ncols"], len(s["names"]))
+    b = C.BY_SID["bind_pyformat_named_merge_upsert"]
+    check("named parameters", (sorted(b["params"]), "%(p0)s" in b["sql"] and "%(p1)s" in b["sql"]), (["p0", "p1"], True))
+    check("qmark_list hands over a list", type(C._params(C.BY_SID["bind_qmark_list_ctas_item"])), list)
+    check("the caller's object is a copy", C._params(C.BY_SID["bind_qmark_list_ctas_item"]) is not C.BY_SID["bind_qmark_list_ctas_item"]["params"], True)
+    check("executemany: a sequence of parameter sets", C._params(C.BY_SID["bindmany_qmark_insert_values"]), [(7, "q"), (8, "r"), (9, "s")])
+    check("model names of a bound select", (C.BY_SID["bind_qmark_select_item_where"]["names"], C.BY_SID["bind_qmark_select_item_where"]["decl"]), (["A", "P"], ["INT", None]))
+    # histories: next statement after a bound one / bound statement after a query
+    hs = [h for h in C.HISTORIES if h["cls"].startswith(("hist:next_after_bound:", "hist:bound_after_query:"))]
+    hk = {k for k, _, _ in C.HIST_BOUND}
+    check("history statement kinds", hk, {"select", "ctas", "insert", "update", "delete", "merge"})
+    check("next_after_bound: style x kind", {h["cls"] for h in hs if "next_after" in h["cls"]}, {f"hist:next_after_bound:{st}:{k}" for st in ("pyformat", "qmark") for k in hk})
+    check("bound_after_query: style x kind", {h["cls"] for h in hs if "bound_after" in h["cls"]}, {f"hist:bound_after_query:{st}:{k}" for st in ("pyformat", "qmark") for k in hk})
+    for h in hs:
+        first, last = h["steps"][0], h["steps"][-1]
+        check(f"{h['hid']}: two statements, the last one read", (len(h["steps"]), last[0]), (2, "x"))
+        bound = first if "next_after" in h["cls"] else last
+        check(f"{h['hid']}: the bound statement has values", bool(bound[2]), True)
+        check(f"{h['hid']}: placeholders of the style only", ("?" in bound[1], "%s" in bound[1]), (h["style"] == "qmark", h["style"] == "pyformat"))
+        if "next_after" in h["cls"]:
+            check(f"{h['hid']}: another number of binds next", len(last[2] or ()) != len(first[2]), True)
+    check("the first statement read and unread", {h["steps"][0][0] for h in hs if "next_after" in h["cls"]}, {"x", "x-"})
+    check("next: query expectation", (C.BY_HID["next_qmark_ctas_select_x-"]["names"], C.BY_HID["next_qmark_ctas_select_x-"]["decl"]), (["A", "B"], ["INT", "VARCHAR"]))
+    check("next: status row has no model names", C.BY_HID["next_qmark_ctas_status_x"]["names"], None)
+    check("statements executed twice can be", [t for _, t, _ in C.HIST_BOUND if t.startswith("create table")], [])
+
+
 def main():
-    for f in (test_codes, test_declared, test_values, test_names, test_fetch_model, test_alphabet, test_histories, test_zero_values):
+    for f in (test_codes, test_declared, test_values, test_names, test_fetch_model, test_alphabet, test_histories, test_zero_values, test_binds):
         f()
     if FAILS:
         print(f"FAILED {len(FAILS)} of {N[0]} checks")
